@@ -1,7 +1,8 @@
 ----------------------------- MODULE NtsKeTrace -----------------------------
 (***************************************************************************)
 (* Validation of what the real ntske.Fetcher (through FetchData or through *)
-(* client.MeasureClockOffsetIP) did against scripted and real key-exchange *)
+(* client.MeasureClockOffsetIP / MeasureClockOffsetSCION) did against      *)
+(* scripted and real key-exchange                                          *)
 (* peers (harness/c20) against NtsKe.tla.                                  *)
 (*                                                                         *)
 (* One line per history (operations on ONE fresh Fetcher): "call" (one     *)
@@ -30,7 +31,8 @@ N == Len(Trace)
 
 ToData(d) == [c2s |-> d.c2s, s2c |-> d.s2c, server |-> d.server, port |-> d.port,
               algo |-> d.algo, pool |-> d.pool]
-ToDest(d) == [sent |-> d.sent, server |-> d.server, port |-> d.port]
+ToDest(d) == [sent |-> d.sent, net |-> d.net, server |-> d.server, port |-> d.port,
+              hop |-> [server |-> d.hop.server, port |-> d.hop.port]]
 
 \* ghost rule for "one cookie is handed out": the statement does not say which
 \* one, so the cookie taken is the one the recorded pool is missing (NtsKe
@@ -115,7 +117,7 @@ StrictStep ==
             /\ r.post = data'
             /\ r.sess = sess'
             /\ e.via = "fetch" => r.ret = ret'.data
-            /\ (r.ok /\ e.dest.sent) => (dest'.server = r.ret.server /\ dest'.port = r.ret.port)
+            /\ (r.ok /\ e.dest.sent) => dest' = Send(r.ret)
     /\ e.ev = "store" => data' = [data EXCEPT !.pool = Append(@, e.id)]
     \* nothing reads the connection of a call that has returned
     /\ e.ev = "late" => data' = data
